@@ -620,10 +620,10 @@ class Engine:
         key = ('round', x.key(), nd)
         self._has_round = True
         n = len([1 for k in self._atom_by_key if k[0] == 'round'])
-        if n >= 48 and key not in self._atom_by_key:
+        if n >= 16 and key not in self._atom_by_key:
             # containers keyed by rounded values compare pairwise (see SR.__hash__): beyond a few dozen distinct
             # rounded values an exploration does not end in useful time - give up honestly instead
-            raise Inconclusive('more than 48 distinct rounded values on one engine (round model)')
+            raise Inconclusive('more than 16 distinct rounded values on one engine (round model)')
         ki = z3.Int('roundk!%d' % n)
         fresh = key not in self._atom_by_key
         a = self.atom(key, lambda: z3.ToReal(ki), 'rnd%d' % n)
